@@ -62,12 +62,12 @@ Proof.
     unfold rpc_repl_tcp.
     destruct t as [tc|].
     - destruct (t_pstate tc) as [[h|r]|]; try discriminate;
-        (destruct (r_state _ =? R_END); intros H; inversion H; subst; discriminate).
-    - destruct (r_state _ =? R_END); cbn; intros H; inversion H; subst; discriminate. }
+        (destruct (r_state _ =? R_END); [destruct (r_mtype _ =? 0)|]; intros H; inversion H; subst; discriminate).
+    - destruct (r_state _ =? R_END); [destruct (r_mtype _ =? 0)|]; cbn; intros H; inversion H; subst; discriminate. }
   destruct (id =? PROTO_RPC_UDP).
   { destruct (ci_ip_dst ci); [|intros H; inversion H].
     destruct (ci_port_dst ci); [|intros H; inversion H].
-    unfold rpc_repl_udp. destruct (r_state _ =? R_END); intros H; inversion H; subst.
+    unfold rpc_repl_udp. destruct ((r_state _ =? R_END) && _); intros H; inversion H; subst.
     unfold rpc_build, be32. discriminate. }
   destruct (id =? PROTO_SMB1).
   { destruct (smb1_repl _ _ _ _) as [o|s] eqn:Hs1; cbn [bind]; [|discriminate].
